@@ -1,6 +1,6 @@
 """C11 — expressions that must be side-effect free are rejected if they can write state."""
 import os, re, subprocess
-import vlib, effgen as G
+import vlib, docgen, effgen as G
 
 V = lambda i: ('v', i)
 L = lambda n=1: ('lit', n)
@@ -153,6 +153,42 @@ def compare_summaries(run, drv, rng, nprog, what):
 
 
 
+PROC_DECL = ('<?xml version="1.0" encoding="utf-8"?><nta><declaration>int g; int ga[3]; void bump(int &amp;r) { r++; }</declaration><template><name>T</name><parameter>int[0,2] p</parameter>'
+             '<declaration>int v; int va[2];\n%s</declaration><location id="id0"/><init ref="id0"/></template><system>P = T(1); system P, T;</system></nta>')
+# (name, body of a template-local function `int f(int k)`, writes something that is not local to it)
+PROC_FUNS = [('local-var', 'v++; return v;', True), ('local-array', 'va[k % 2] = 1; return 0;', True), ('global', 'g = 3; return 1;', True), ('global-array', 'ga[1] += 2; return 1;', True),
+             ('through-ref', 'bump(v); return v;', True), ('through-ref-global', 'bump(g); return 0;', True), ('chain', 'return h(k);', True), ('in-loop', 'for (i : int[0,1]) { if (i == k) v = i; } return 0;', True),
+             ('own-local', 'int z = k; z++; return z;', False), ('reads', 'return v + g + va[0] + p;', False), ('reads-chain', 'return r(k) + 1;', False)]
+
+
+def process_calls(run):
+    """functions of a template called through a process in a query (P.f(1), T(2).f(1)): the side-effect analysis has to follow the member, not the process"""
+    j = vlib.Job()
+    cases = []
+    for name, body, writes in PROC_FUNS:
+        decl = 'int h(int k) { v = k; return v; } int r(int k) { return v + k; } int f(int k) { %s }' % docgen.XESC(body)
+        for q in ('E<> P.f(1) > 0', 'A[] P.f(0) >= 0 && P.v >= 0', 'E<> T(2).f(1) > 0', 'E<> forall (i : int[0,1]) P.f(i) >= 0', 'P.f(1) > 0 --> P.v > 0'):
+            cases.append((name, q, writes))
+            j.case('p%d' % (len(cases) - 1), fork=True).model('xml', PROC_DECL % decl).dump('errors').query(q, rt=False).end()
+    rr = vlib.run_jobs(j)
+    n = 0
+    for k, (name, q, writes) in enumerate(cases):
+        c = rr['p%d' % k]
+        if c['status'] != 'ok' or len(c['cmds']) < 3:
+            run.fail('type checker crashed on a query calling a function through a process', dict(form=name, query=q, status=c['status']), shape='crash:query-process-call')
+            continue
+        if any(l.startswith('error') for l in c['cmds'][1][2]):
+            run.tie_broken('the model of the process-call block is rejected', dict(form=name, errors=[l for l in c['cmds'][1][2] if l.startswith('error')][:2]))
+            continue
+        n += 1
+        acc = any(l.startswith('accepted 1') for l in c['cmds'][2][2])
+        if writes and acc:
+            run.fail('the query %r is accepted although the function it calls through the process writes a variable (%s)' % (q, name), dict(form=name, query=q), shape='accepts-write:query-process-call:' + name)
+        if not writes and not acc:
+            run.tie_broken('side-effect-free twin of a process call rejected', dict(form=name, query=q, answer=c['cmds'][2][2][:3]))
+    return n
+
+
 def check(run):
     thorough = run.tier == 'thorough'
     rng = run.rng
@@ -210,7 +246,8 @@ def check(run):
             nacc += 1
     if cmism:
         run.tie_broken('side-effect-free twins must be accepted (model says nothing is written)', cmism[:6] + [dict(total=len(cmism))])
-    run.cov.update(evaluations=nfun + ncase, distinct_nontrivial=nwriters + ncase, traces_validated_against_impl=nfun + ncase,
+    npc = process_calls(run)
+    run.cov.update(process_call_queries=npc, evaluations=nfun + ncase + npc, distinct_nontrivial=nwriters + ncase + npc, traces_validated_against_impl=nfun + ncase + npc,
                    rule='(1) seeded random programs (2-6 functions, all statement forms, value / reference / const-reference parameters, calls to earlier functions): the changes and depends sets the type checker stores per '
                         'function vs the extracted Coq summaries; (2) %d side-effect-free contexts x %d write forms (direct, in every statement form, initialiser, return value, array element, struct field, inline-if target, '
                         'reference parameter, call chains of depth 1-3) each with a twin that writes a local instead: writer rejected, twin accepted' % (len(CONTEXTS), len(cars)),
